@@ -27,7 +27,7 @@ func in1(allow []int64, got int) bool {
 func runIndex(r *runner, c *pcase) {
 	switch c.F {
 	case "MaxIdx", "MinIdx", "NearestIdx", "Within", "Find", "Count", "Argsort", "ArgsortStable",
-		"Span", "SpanEnds", "NearestIdxForSpan":
+		"Span", "SpanEnds", "SpanEndsFin", "NearestIdxForSpan":
 	default:
 		return
 	}
@@ -158,12 +158,12 @@ func runIndex(r *runner, c *pcase) {
 					bad = "wrote outside dst"
 				}
 			}
-		case "SpanEnds":
+		case "SpanEnds", "SpanEndsFin":
 			bd := place(make([]float64, c.N), off)
 			o = core.Call(func() { floats.Span(bd.view, dec[float64](c.X[0], 0), dec[float64](c.X[1], 0)) })
 			if !o.Panicked {
 				if !same(bd.view[0], c.X[0], 0) || !same(bd.view[c.N-1], c.X[1], 0) {
-					bad = fmt.Sprintf("endpoints %v, %v; documented l=%v u=%v", bd.view[0], bd.view[c.N-1], dec[float64](c.X[0], 0), dec[float64](c.X[1], 0))
+					bad = fmt.Sprintf("n=%d endpoints %v, %v; documented: first element l=%v, final element u=%v", c.N, bd.view[0], bd.view[c.N-1], dec[float64](c.X[0], 0), dec[float64](c.X[1], 0))
 				} else if !bd.intact() {
 					bad = "wrote outside dst"
 				}
@@ -188,7 +188,7 @@ func runIndex(r *runner, c *pcase) {
 			bad = "wrote outside the operand"
 		}
 		if bad == "" && c.F != "Argsort" && c.F != "ArgsortStable" {
-			if i, ok := sameVec(x, c.X, 0); !ok && c.F != "SpanEnds" {
+			if i, ok := sameVec(x, c.X, 0); !ok {
 				bad = fmt.Sprintf("input modified at %d", i)
 			}
 		}
